@@ -36,7 +36,7 @@ def specs():
     return [dict(name="c05_sessions", srcs="c05_sessions.cpp", cfg="asan", rapidcheck=True, wraps=["time"])]
 
 
-QUICK = dict(shards=14, cases=120, cfg_cases=400)
+QUICK = dict(shards=14, cases=160, cfg_cases=400)
 THOROUGH = dict(shards=16, cases=420, cfg_cases=4000)
 
 
